@@ -221,7 +221,7 @@ Fixpoint cycle_rep (saved cur : list Z) (k : nat) : list (event Z) :=
             end
   end.
 
-Fixpoint cycle_go (kd : kind) (saved l : list Z) (k : nat) : list (event Z) :=
+Fixpoint cycle_go (kd : kind) (saved l : list Z) (k : nat) {struct k} : list (event Z) :=
   match k with
   | 0 => []
   | S k' => match l with
@@ -589,6 +589,10 @@ Definition set_phase (s : tst) (c : nat) (p : tph) : tst :=
   mkT (tmode s) (tsrc s) (tcells s) (towner s) (twait s) (tlink s) (tyielded s) (upd (tphase s) c p) (tn s)
       (tseen s) (tstopped s) (tpolled s).
 
+(* The step function is a composition of the following moves.  TIdle also stands for "running": a move that
+   resumes a suspended consumer first marks it TIdle (t_wake). *)
+Definition t_wake (s : tst) (c : nat) : tst := set_phase s c TIdle.
+
 (* Lock.release() by the owner (no cancelled waiters here) *)
 Definition t_release (s : tst) : tst :=
   match twait s with
@@ -618,29 +622,56 @@ Definition t_finish (s : tst) (c : nat) (had : bool) : tst * tres * list (event 
   | None => (s, TRejected, [])
   end.
 
+(* `link.value = ...; link.next = _TeeLink(); link.filled = True` by the (running) lock owner *)
+Definition t_store (s : tst) (c : nat) (x : cell) : tst :=
+  mkT (tmode s) (tsrc s) (upd (tcells s) (tlink s c) (Some x)) (towner s) (twait s) (tlink s)
+      (tyielded s) (upd (tphase s) c TIdle) (tn s) (tseen s) (tstopped s) (tpolled s).
+
 (* store x into the consumer's link, release the lock, finish *)
 Definition t_fill (s : tst) (c : nat) (x : cell) : tst * tres * list (event Z) :=
-  let s1 := mkT (tmode s) (tsrc s) (upd (tcells s) (tlink s c) (Some x)) (towner s) (twait s) (tlink s)
-                (tyielded s) (tphase s) (tn s) (tseen s) (tstopped s) (tpolled s) in
-  t_finish (t_release s1) c true.
+  t_finish (t_release (t_store s c x)) c true.
+
+Definition next_cell (s : tst) : cell := match tsrc s with [] => CEnd | v :: _ => CVal v end.
+
+(* `await anext(self.iterator, _tee_end)` by the lock owner: the source has produced next_cell, the consumer
+   holds it (TFilling) until it is stored *)
+Definition t_poll (s : tst) (c : nat) : tst :=
+  mkT (tmode s) (List.tl (tsrc s)) (tcells s) (towner s) (twait s) (tlink s) (tyielded s)
+      (upd (tphase s) c (TFilling (next_cell s))) (tn s) (tseen s) (tstopped s) (tpolled s ++ [next_cell s]).
 
 (* consumer c owns the lock: `if link.filled: return True` else advance the source (lines 96-104) *)
 Definition t_locked (s : tst) (c : nat) : tst * tres * list (event Z) :=
-  match tcells s (tlink s c) with
-  | Some _ => t_finish (t_release s) c true
+  let s0 := t_wake s c in
+  match tcells s0 (tlink s0 c) with
+  | Some _ => t_finish (t_release s0) c true
   | None =>
-      let x := match tsrc s with [] => CEnd | v :: _ => CVal v end in
-      let s1 := mkT (tmode s) (List.tl (tsrc s)) (tcells s) (towner s) (twait s) (tlink s) (tyielded s)
-                    (tphase s) (tn s) (tseen s) (tstopped s) (tpolled s ++ [x]) in
+      let x := next_cell s0 in
+      let s1 := t_poll s0 c in
       match tmode s with
-      | 0 => (set_phase s1 c (TFilling x), TBlocked, [CkIf; Sh])
+      | 0 => (s1, TBlocked, [CkIf; Sh])
       | 1 => t_fill s1 c x
-      | _ => (set_phase s1 c (TFilling x), TBlocked, [])
+      | _ => (s1, TBlocked, [])
       end
   end.
 
 Definition is_tidle (p : tph) : bool := match p with TIdle => true | _ => false end.
 Definition owner_is (o : option nat) (c : nat) : bool := match o with Some x => Nat.eqb x c | None => false end.
+
+Definition t_take (s : tst) (c : nat) : tst :=
+  mkT (tmode s) (tsrc s) (tcells s) (Some c) [] (tlink s) (tyielded s)
+      (upd (tphase s) c TLockYield) (tn s) (tseen s) (tstopped s) (tpolled s).
+
+Definition t_enqueue (s : tst) (c : nat) : tst :=
+  mkT (tmode s) (tsrc s) (tcells s) (towner s) (twait s ++ [c]) (tlink s) (tyielded s)
+      (upd (tphase s) c TLockWait) (tn s) (tseen s) (tstopped s) (tpolled s).
+
+Definition t_stop (s : tst) (c : nat) : tst :=
+  mkT (tmode s) (tsrc s) (tcells s) (towner s) (twait s) (tlink s) (tyielded s) (upd (tphase s) c TIdle)
+      (tn s) (tseen s) (upd (tstopped s) c true) (tpolled s).
+
+Definition t_return (s : tst) (c : nat) (v : Z) : tst :=
+  mkT (tmode s) (tsrc s) (tcells s) (towner s) (twait s) (tlink s) (tyielded s) (upd (tphase s) c TIdle)
+      (tn s) (upd (tseen s) c (tseen s c ++ [v])) (tstopped s) (tpolled s).
 
 Definition tstep (s : tst) (o : top) : tst * tres * list (event Z) :=
   match o with
@@ -650,12 +681,8 @@ Definition tstep (s : tst) (o : top) : tst * tres * list (event Z) :=
       | Some _ => t_finish s c false
       | None =>
           match towner s, twait s with
-          | None, [] =>
-              (mkT (tmode s) (tsrc s) (tcells s) (Some c) [] (tlink s) (tyielded s)
-                   (upd (tphase s) c TLockYield) (tn s) (tseen s) (tstopped s) (tpolled s), TBlocked, [])
-          | _, _ =>
-              (mkT (tmode s) (tsrc s) (tcells s) (towner s) (twait s ++ [c]) (tlink s) (tyielded s)
-                   (upd (tphase s) c TLockWait) (tn s) (tseen s) (tstopped s) (tpolled s), TBlocked, [])
+          | None, [] => (t_take s c, TBlocked, [])
+          | _, _ => (t_enqueue s c, TBlocked, [])
           end
       end
   | TResume c =>
@@ -665,12 +692,8 @@ Definition tstep (s : tst) (o : top) : tst * tres * list (event Z) :=
       | TLockYield => t_locked s c
       | TLockWait => if owner_is (towner s) c then t_locked s c else (s, TRejected, [])
       | TFilling x => t_fill s c x
-      | TEndCk =>
-          (mkT (tmode s) (tsrc s) (tcells s) (towner s) (twait s) (tlink s) (tyielded s) (upd (tphase s) c TIdle)
-               (tn s) (tseen s) (upd (tstopped s) c true) (tpolled s), TStop, [])
-      | TRetSh v =>
-          (mkT (tmode s) (tsrc s) (tcells s) (towner s) (twait s) (tlink s) (tyielded s) (upd (tphase s) c TIdle)
-               (tn s) (upd (tseen s) c (tseen s c ++ [v])) (tstopped s) (tpolled s), TRet v, [])
+      | TEndCk => (t_stop s c, TStop, [])
+      | TRetSh v => (t_return s c v, TRet v, [])
       end
   end.
 
